@@ -462,3 +462,42 @@ def _loop_canaries(g):
             s = g.lines[ln]
             g.lines[ln] = s[:col + 1] + " assert(false); /* CANARY:%s.loop%d */ " % (iid, n) + s[col + 1:]
             g.canaries.append("%s.loop%d" % (iid, n))
+
+
+def structural_checks(unit):
+    """-> list of dict(id, ok, detail). Every occurrence of `pattern` in the globbed non-test sources must lie inside one of allowed_fns."""
+    import glob as _glob
+    res = []
+    for sc in unit.get("structural", []):
+        files = sorted(_glob.glob(os.path.join(repo_root(), sc["glob"]), recursive=True))
+        bad, seen = [], 0
+        p = pat(sc["pattern"])
+        for f in files:
+            if any(f.endswith("/" + e) or os.path.basename(f) == e for e in sc.get("exclude", [])): continue
+            rel = os.path.relpath(f, repo_root())
+            src = Source.get(rel)
+            toks, m = src.toks, src.m
+            for i in find_all_seq(toks, p):
+                seen += 1
+                fn = enclosing_fn(toks, m, i)
+                if fn not in sc["allowed_fns"]:
+                    bad.append("%s:%s in fn %s" % (rel, toks[i].line, fn))
+        ok = not bad and seen > 0
+        res.append({"id": sc["id"], "ok": ok, "detail": ("%d occurrence(s), all inside %s" % (seen, sc["allowed_fns"])) if ok else
+                    ("no occurrence found (anchor lost)" if seen == 0 else "occurrence outside the allowed functions: " + "; ".join(bad)),
+                    "why": sc.get("why", ""), "lost": seen == 0})
+    return res
+
+def enclosing_fn(toks, m, idx):
+    """name of the innermost `fn` whose body contains token idx (None at file level)"""
+    best = None
+    for i, t in enumerate(toks):
+        if i > idx: break
+        if t.s == "fn" and i + 1 < len(toks) and toks[i + 1].k == "id":
+            j = i
+            while j < len(toks) and toks[j].s not in ("{", ";"):
+                if toks[j].k == "o": j = m[j]
+                j += 1
+            if j < len(toks) and toks[j].s == "{" and j < idx < m[j]:
+                best = toks[i + 1].s
+    return best
